@@ -4,6 +4,7 @@ package service
 
 import (
 	"fmt"
+	"sync"
 
 	"github.com/mdzio/go-mqtt/message"
 )
@@ -11,6 +12,7 @@ import (
 // C01: a publish reaches exactly the clients whose current subscriptions match it.
 
 type vrtInproc struct {
+	mu  sync.Mutex // the callback may be invoked from several goroutines of the library
 	fn  OnPublishFunc
 	got []specPkt
 }
@@ -18,6 +20,8 @@ type vrtInproc struct {
 func vrtNewInproc() *vrtInproc {
 	i := &vrtInproc{}
 	i.fn = func(m *message.PublishMessage) error {
+		i.mu.Lock()
+		defer i.mu.Unlock()
 		i.got = append(i.got, specPkt{Typ: specPUBLISH, Flags: m.QoS()<<1 | vrtB2b(m.Retain(), 1) | vrtB2b(m.Dup(), 8),
 			Topic: append([]byte(nil), m.Topic()...), Payload: append([]byte(nil), m.Payload()...)})
 		return nil
@@ -26,6 +30,8 @@ func vrtNewInproc() *vrtInproc {
 }
 
 func (i *vrtInproc) take() []specPkt {
+	i.mu.Lock()
+	defer i.mu.Unlock()
 	g := i.got
 	i.got = nil
 	return g
